@@ -47,6 +47,23 @@ def features(d):
     # inserted in between must not make the explicit value look redundant)
     from .render import DEFAULTS, _parents, _spec
     par = _parents(d)
+    # gradients sitting directly in defs (a wrapper group then changes their path from defs)
+    for i, nd in enumerate(d["nodes"]):
+        if nd["tag"] in ("linearGradient", "radialGradient") and par[i] is not None \
+                and d["nodes"][par[i]]["tag"] == "defs":
+            fs.add("defs>gradient")
+            if nd.get("ref"):
+                fs.add("defs>gradient-with-href")
+                t = ids.get(nd["ref"])
+                if t is not None:
+                    j = d["nodes"].index(t)
+                    if par[j] is not None and d["nodes"][par[j]]["tag"] == "defs":
+                        fs.add("defs>gradient-with-href>defs-template")
+                    if any(a[0] == "gradientTransform" for a in t["at"]) or \
+                            any(a[0] == "gradientUnits" for a in t["at"]):
+                        fs.add("href-template-with-transform-or-units")
+            if any(n2.get("ref") == nd.get("id") and n2["tag"] != "use" for n2 in d["nodes"] if nd.get("id")):
+                fs.add("defs>template")
     for i, nd in enumerate(d["nodes"]):
         for a in ("fill", "fill-rule", "fill-opacity", "stroke"):
             v = _spec(nd["at"], a)
@@ -59,6 +76,29 @@ def features(d):
                         fs.add("explicit-initial-under-override")
                     j = par[j]
     return fs
+
+
+def template_family():
+    """hand-written bases: a gradient inheriting units, transform and stops from a template, both
+    directly in defs, in both document orders (noise inside defs then sits between / around them)"""
+    def grad(gid, ref, at, stops):
+        return {"d": 2, "tag": "linearGradient", "id": gid, "at": at, "g": stops, "ref": ref}
+    tmpl = grad("ta", "", [["gradientUnits", "userSpaceOnUse", 0], ["x1", [1, 1, 0], 0], ["y1", [2, 1, 0], 0],
+                           ["x2", [3, 1, 0], 0], ["y2", [4, 1, 0], 0],
+                           ["gradientTransform", [["translate", 3, 1]], 0]], [[0, "red"], [100, "blue"]])
+    user = grad("tb", "ta", [["x1", [0, 1, 0], 0], ["y1", [0, 1, 0], 0], ["x2", [8, 1, 0], 0],
+                             ["y2", [0, 1, 0], 0]], [])
+    shape = {"d": 1, "tag": "rect", "id": "", "at": [["fill", "url(#tb)", 0], ["fillref", "tb", 0]],
+             "g": [1, 1, 12, 12, -1, -1], "ref": ""}
+    shape2 = {"d": 1, "tag": "rect", "id": "", "at": [["fill", "url(#ta)", 0], ["fillref", "ta", 0]],
+              "g": [2, 9, 9, 5, -1, -1], "ref": ""}
+    defs = {"d": 1, "tag": "defs", "id": "", "at": [], "g": [], "ref": ""}
+    res = []
+    for order in ([user, tmpl], [tmpl, user]):
+        for shapes in ([shape], [shape2, shape]):
+            res.append({"vb": [0, 0, 16, 16], "view": [0, 0, 16, 16], "root": [],
+                        "nodes": [defs] + order + shapes})
+    return res
 
 
 def run(out, tier):
@@ -88,6 +128,7 @@ def run(out, tier):
                 pool.remove(best)
                 have |= features(best)
                 bases.append(best)
+        bases.extend(template_family())
         path = os.path.join(wd, "bases.ndjson")
         common.write_ndjson(path, bases)
         r = common.tlc("Noise", "Noise.cfg", wd, env={"DOCS": path}, timeout=3600, heap="8g")
